@@ -1,6 +1,7 @@
 package props
 
 import (
+	"os"
 	"fmt"
 	"strings"
 
@@ -117,6 +118,8 @@ func runC08(e *core.Env) {
 				}
 			case 1, 2, 3, 4: // invisible characters in front of the first byte: whatever klog makes of them, it must give them back
 				text = r.Pick("\ufeff", "\ufeff", "\u200b", "\ufffe", "\xef\xbb") + text
+			case 7: // multi-byte characters across the offsets at which chunked readers cut
+				text = straddleText(r, r.PickInt(8192, 65536, 131072))
 			case 5, 6: // ... or in front of a later record (two files concatenated)
 				d2 := gen.Document(r, gen.Opts{MaxRecs: 2, MinRecs: 1, MaxEntries: 2})
 				if text != "" && !strings.HasSuffix(text, "\n") {
@@ -138,7 +141,7 @@ func c08Check(e *core.Env, r *core.Rand, text string, decorated bool, idx int64)
 		p    parser.Parser
 	}{{"serial", parser.NewSerialParser()}, {fmt.Sprintf("parallel(%d)", r.Range(2, 12)), nil}}
 	engines[1].p = parser.NewParallelParser(r.Range(2, 12))
-	if idx%6 == 0 {
+	if idx%6 == 0 && len(text) < 30000 {
 		// sweep of worker counts: every chunk boundary position of this text occurs for some count
 		for n := 2; n <= 40 && n <= len(text)+1; n++ {
 			engines = append(engines, struct {
@@ -273,6 +276,35 @@ func c08Check(e *core.Env, r *core.Rand, text string, decorated bool, idx int64)
 					e.Violation("panic: "+pi.Site(), "ReconcileFile: "+pi.Value, w)
 				}
 				e.Count("on_disk_noop_reconciles", 1)
+				// ... and an edit that makes the file SHORTER (an open range with a long placeholder closed at a short time): what is on
+				// disk afterwards must be exactly the text the reconciler produced, nothing of the old contents may stay behind
+				for _, rc := range rs {
+					or := rc.OpenRange()
+					if or == nil {
+						continue
+					}
+					end, terr := or.Start().Plus(klog.NewDuration(0, 1))
+					if terr != nil {
+						break
+					}
+					_ = os.WriteFile(f, []byte(text), 0644)
+					if pi := core.Guard(func() {
+						res, rerr := ctx.ReconcileFile(app.FileOrBookmarkName(f), []reconciling.Creator{reconciling.NewReconcilerAtRecord(rc.Date())}, func(rr *reconciling.Reconciler) error {
+							return rr.CloseOpenRange(end, reconciling.NoReformat[klog.TimeFormat](), nil)
+						})
+						if rerr != nil {
+							return // whether the edit is possible is not this property's subject
+						}
+						if got := readFile(f); got != res.AllSerialised {
+							e.Violation("written-file-differs-from-reconciled-text", fmt.Sprintf("after closing an open range the file on disk (%d bytes) is not the text the reconciler produced (%d bytes; the input had %d):\n%q\nwant\n%q", len(got), len(res.AllSerialised), len(text), trunc(got, 600), trunc(res.AllSerialised, 600)), w)
+						} else if len(got) < len(text) {
+							e.Count("on_disk_edits_that_shrink_the_file", 1)
+						}
+					}); pi != nil {
+						e.Violation("panic: "+pi.Site(), "ReconcileFile(CloseOpenRange): "+pi.Value, w)
+					}
+					break
+				}
 			}
 		}
 	}
